@@ -431,3 +431,35 @@ Definition x_abs (t : xform) : xform :=
   {| m00 := Qabs (m00 t); m01 := Qabs (m01 t); m10 := Qabs (m10 t); m11 := Qabs (m11 t);
      vx := Qabs (vx t); vy := Qabs (vy t) |}.
 Definition visit_bounds (t : table) (gid : Z) := visit_insts (fun c => x_abs (comp_xform c)) t gid.
+
+(* ---------------------------------------------------------------------------------------------- *)
+(* specification-side view of a component (used by the theorems and by the correspondence judge)   *)
+
+Definition sscale_of (c : component) : sscale :=
+  match c_scale c with
+  | None => NoScale
+  | Some (SScale s) => Uniform s
+  | Some (SXY x y) => XYScale x y
+  | Some (SMatrix a b c d) => TwoByTwo a b c d
+  end.
+
+(* the class the source documents as not implemented (TODOs): point-number arguments, and offsets
+   that are to be scaled (SCALED_COMPONENT_OFFSET without UNSCALED_COMPONENT_OFFSET, on a component
+   that has a scale) *)
+Definition scaled_offset_requested (c : component) : bool :=
+  has (c_flags c) CF_SCALED_COMPONENT_OFFSET && negb (has (c_flags c) CF_UNSCALED_COMPONENT_OFFSET) &&
+  match c_scale c with Some _ => true | None => false end.
+Definition supported (c : component) : bool :=
+  has (c_flags c) cf_args_are_xy_values && negb (scaled_offset_requested c).
+
+(* the transform the OpenType specification prescribes for a supported component, as an xform
+   (spec_transform of GlyfSpec.v: no Gen constants); the excluded class stays as coded *)
+Definition spec_xform (c : component) : xform :=
+  if supported c then
+    let o := spec_transform (sscale_of c) (c_arg1 c) (c_arg2 c) (0, 0)%Q in
+    let ex := spec_transform (sscale_of c) (c_arg1 c) (c_arg2 c) (1, 0)%Q in
+    let ey := spec_transform (sscale_of c) (c_arg1 c) (c_arg2 c) (0, 1)%Q in
+    {| m00 := Qred (fst ex - fst o); m01 := Qred (fst ey - fst o);
+       m10 := Qred (snd ex - snd o); m11 := Qred (snd ey - snd o);
+       vx := Qred (fst o); vy := Qred (snd o) |}
+  else comp_xform c.
